@@ -180,3 +180,66 @@ _install0 = install
 
 def install(lib):
     return _install0(lib) + [HttpsVariation(), LruVariations()]
+
+
+# ---------------------------------------------------------------------------- walk history (C06)
+RULEPOS = z3.Function("RULEPOS", INT, INT)
+
+
+class RulesToApply(Contract):
+    """LRUTrieWalkHistory.rules_to_apply: one candidate anchor per recorded rule position,
+    deepest first: the j-th yield is lru[0:position_(n-1-j)].  Positions recorded by the
+    walks are lengths of stem-prefixes of the walked LRU, the LRU itself included
+    (0 <= position <= len(lru))."""
+
+    qual = "LRUTrieWalkHistory.rules_to_apply"
+
+    def setups(self, ex):
+        p = Path()
+        lru = fresh("lru", BYTES)
+        n = fresh("nrules", INT)
+        j = z3.Int("j")
+        p.assume(n >= 0)
+        p.assume(z3.ForAll([j], z3.Implies(z3.And(j >= 0, j < n), z3.And(RULEPOS(j) >= 0, RULEPOS(j) <= z3.Length(lru)))))
+        rules = p.new_obj("list", {"len": n, "elem": lambda i: RULEPOS(i)})
+        h = p.new_obj("LRUTrieWalkHistory", {"lru": lru, "webentity_creation_rules": rules})
+        p.w["__lru"], p.w["__n"] = lru, n
+        p.w["out.n"] = z3.IntVal(0)
+        p.w["out.v"] = fresh("out_v", z3.ArraySort(INT, BYTES))
+        yield p, h, [], {}, "any"
+
+    def on_yield(self, ex, p, v, ln, tag):
+        n = p.w["out.n"]
+        p.w["out.v"] = z3.Store(p.w["out.v"], n, to_z3(v))
+        p.w["out.n"] = z3.simplify(n + 1)
+        p.mut += 1
+        return [(p, "normal", None)]
+
+    @staticmethod
+    def described(p, upto):
+        j = z3.Int("j")
+        lru, n = p.w["__lru"], p.w["__n"]
+        return [("yield-j-is-the-prefix-cut-at-the-(n-1-j)-th-recorded-position", z3.ForAll([j], z3.Implies(z3.And(j >= 0, j < upto), z3.Select(p.w["out.v"], j) == z3.Extract(lru, 0, RULEPOS(n - 1 - j)))))]
+
+    def check(self, ex, p0, res, tag):
+        for p1, kind, val in res:
+            if kind == "raise":
+                ex.oblige(p1, "raises-nothing(%s)" % val[0], False, val[1])
+                continue
+            ex.oblige(p1, "one-candidate-per-recorded-rule", p1.w["out.n"] == p0.w["__n"], None)
+            for nm, f in self.described(p1, p1.w["out.n"]):
+                ex.oblige(p1, nm, f, None)
+
+
+def rules_loop_inv(ex, p):
+    idx = [k for k in p.env if k.startswith("__i")][0]
+    i = to_z3(p.env[idx])
+    return [("yields-so-far==iterations", p.w["out.n"] == i)] + RulesToApply.described(p, p.w["out.n"])
+
+
+_install1 = install
+
+
+def install(lib):
+    lib.loop_spec("LRUTrieWalkHistory.rules_to_apply::for#0", LoopSpec(rules_loop_inv, world=("out.n", "out.v")))
+    return _install1(lib) + [RulesToApply()]
